@@ -112,7 +112,7 @@ def run(tier, replay=None):
     reached = 0
     for variant in (0, 1, 2):
         depth = 4 if (thorough and variant < 2) else 3
-        deep = "0" if thorough else ("8" if variant == 0 else "0")
+        deep = "0" if thorough else ("16" if variant == 0 else "0")
         walks = (60000 if thorough else 6000) if variant < 2 else (20000 if thorough else 2000)
         s = harness(rep, bins, beh, ["--mode", "walk", "--variant", str(variant), "--seed", str(seed * 3 + variant),
                                      "--threads", threads, "--depth", str(depth), "--deep-frac", deep,
@@ -223,7 +223,7 @@ def run(tier, replay=None):
                        "and an SNI x authority request matrix (HTTP/1.1 keep-alive and HTTP/2 streams) at the end; plus (I->S) seeded "
                        "random runs recorded as ndjson and accepted by TLC against Trace_CertResolver.tla. "
                        "The spec's state graph (%d states) is complete, so TLC's verdict covers histories of any length."
-                       % ("4 (3 for the RSA pairs)" if thorough else "3 (1/8 of length 4)", "14" if thorough else "10", n_states if not replay else 0))
+                       % ("4 (3 for the RSA pairs)" if thorough else "3 (1/16 of length 4)", "14" if thorough else "10", n_states if not replay else 0))
     rep.assumptions += [
         "certificate names range over {a.x, b.x, *.x, a.b.x, *.b.x} (two concretisations of the labels), 8 certificate variants over 4 fingerprints, 3 expiries; probe names add c.x, c.b.x, x, c.a.x, b.a.b.x",
         "among certificates with the same expiry any placement is admissible (the spec is a relation there); the code's choice (newest wins) is not demanded",
